@@ -40,7 +40,12 @@ def write_evidence(pid, tier, seed, results, t0, assumptions, violations, weave_
     n_bob = sum(r.get('n_real', 0) for r in bounded)
     n_bdis = sum(r.get('n_real', 0) for r in bounded if r['status'] == 'ok')
     meta = PROP_META.get(pid, {})
-    all_proof = bool(proof) and not bounded and meta.get('level', 'other') == 'proof'
+    # bounded groups marked "supplementary" in the plan (anchor-independent re-checks of something a proof group already
+    # covers, input-producing refuters, cases outside the contract's stated precondition) do not lower the level; they
+    # stay listed and counted under the bounded keys only
+    core_bounded = [r for r in bounded if not r.get('supplementary')]
+    all_proof = bool(proof) and not core_bounded and meta.get('level', 'other') == 'proof' \
+        and all(r['status'] == 'ok' for r in proof)
     funcs = sorted(set(f for r in results for f in r['functions']))
     samples = []
     for r in results:
@@ -54,7 +59,7 @@ def write_evidence(pid, tier, seed, results, t0, assumptions, violations, weave_
     for r in results:
         by_backend.setdefault(r.get('backend') or 'none', 0.0)
         by_backend[r.get('backend') or 'none'] += r['solver_s']
-    groups = [{'id': r['id'], 'level': r['level'], 'bound': r.get('bound'), 'status': r['status'],
+    groups = [{'id': r['id'], 'level': r['level'], 'bound': r.get('bound'), 'supplementary': bool(r.get('supplementary')), 'status': r['status'],
                'route': r['route'], 'enforce': r.get('enforce'), 'replaced_by_contract': r.get('replace'),
                'backend': r.get('backend'), 'obligations': r.get('n_real', 0), 'canaries_failed_as_required': r.get('n_canary', 0),
                'solver_s': round(r['solver_s'], 1), 'build_s': round(r['build_s'], 1), 'functions': r['functions'],
